@@ -4,7 +4,12 @@ pub mod c03;
 pub mod c04;
 pub mod c05;
 pub mod c06;
+pub mod c07;
 pub mod c08;
+pub mod c09;
+pub mod c10;
+pub mod c11;
+pub mod c14;
 pub mod common;
 pub mod exempt;
 pub mod generic;
@@ -23,7 +28,12 @@ pub fn build(id: &str) -> Option<Property> {
         "C04" => Some(c04::property()),
         "C05" => Some(c05::property()),
         "C06" => Some(c06::property()),
+        "C07" => Some(c07::property()),
         "C08" => Some(c08::property()),
+        "C09" => Some(c09::property()),
+        "C10" => Some(c10::property()),
+        "C11" => Some(c11::property()),
+        "C14" => Some(c14::property()),
         _ => None,
     }
 }
